@@ -2563,6 +2563,13 @@ void save_file_info (int file_id, int lines) {
 
   fi[0] = (short)lines;
   fi[1] = (short)file_id;
+#ifdef NEOLITH_VERIF
+  {
+    extern void (*verif_line_hook) (int, long, long, long, const char *);
+    if (verif_line_hook)
+      verif_line_hook ('f', (long) file_id, (long) lines, mem_block[A_FILE_INFO].block ? 1 : 0, 0);
+  }
+#endif
   if (mem_block[A_FILE_INFO].block)
     add_to_mem_block (A_FILE_INFO, (char *) &fi[0], sizeof (fi));
 }
@@ -2579,6 +2586,15 @@ int add_program_file (const char *name, int top) {
       opt_trace (TT_COMPILE|2, "adding: \"%s\"", name);
       add_to_mem_block (A_INCLUDES, name, strlen (name) + 1);
     }
+#ifdef NEOLITH_VERIF
+  {
+    extern void (*verif_line_hook) (int, long, long, long, const char *);
+    int verif_id = mem_block[A_STRINGS].block ? store_prog_string (name) + 1 : 0;
+    if (verif_line_hook)
+      verif_line_hook ('a', (long) verif_id, (long) top, 0, name);
+    return verif_id;
+  }
+#endif
   return mem_block[A_STRINGS].block ? store_prog_string (name) + 1 : 0;
 }
 
